@@ -11,7 +11,7 @@ META = {
             'explicit expectations. C14-b: all tables of 3 user snippets over a menu of 9 (self/mutually/3-cyclic) bodies.',
     'bounds': {
         'quick': 'every built-in snippet of html, xsl and pug (table-exhaustive) used alone, and with [t=V] / {T} / *N / `/` / >ey '
-                 'where the definition is a single top-level element chain; V,T 1..2 chars, N in 1..3; 6 user snippets x 13 decorated uses (incl. definitions ending in a nameless element or bare text); a failing resolution '
+                 'where the definition is a single top-level element chain; V,T 1..2 chars, N in 1..3; 8 user snippets x 16 decorated uses (incl. definitions ending in a nameless element or bare text); a failing resolution '
                  '(4 broken nested definitions x 3 nesting depths) followed by 4 probes on the repaired table; 729 cyclic tables x 3 probes',
         'thorough': 'the same with format on as well, reverseAttributes, N in 1..4',
     },
@@ -152,7 +152,8 @@ def mk_builtin(syntax, deco, part, nparts, fmt):
                           'markup.attributes.merge_attributes', 'snippets.parse_snippets']}
 
 
-USER = {'foo': 'ea+eb', 'bar': 'ea>eb+ec', 'baz': '(ea>eb)+ec[u=w]', 'qux': '.foo[u=w]', 'txt': '{hello}', 'imp': 'ea>.in'}
+USER = {'foo': 'ea+eb', 'bar': 'ea>eb+ec', 'baz': '(ea>eb)+ec[u=w]', 'qux': '.foo[u=w]', 'txt': '{hello}', 'imp': 'ea>.in',
+        'nest': 'foo[u=w]', 'nest2': 'nest.k'}
 # expectations as rope pieces; 0 = payload V, 1 = repeat marker
 USER_CASES = [
     ('foo[t=QZ1]', ['<ea t="', 0, '"></ea><eb t="', 0, '"></eb>']),
@@ -169,6 +170,10 @@ USER_CASES = [
     ('imp.k>ey', ['<ea class="k"><div class="in"><ey></ey></div></ea>']),
     ('txt>ey', ['hello<ey></ey>']),
     ('ex>qux*2>ey', ['<ex><div class="foo" u="w"><ey></ey></div><div class="foo" u="w"><ey></ey></div></ex>']),
+    # an alias of an alias: attributes written on each level reach every top-level element exactly once
+    ('nest.c.d>ey', ['<ea u="w" class="c d"></ea><eb u="w" class="c d"><ey></ey></eb>']),
+    ('nest2#i[t=QZ1]', ['<ea u="w" class="k" id="i" t="', 0, '"></ea><eb u="w" class="k" id="i" t="', 0, '"></eb>']),
+    ('ex>nest.c*2', ['<ex>' + '<ea u="w" class="c"></ea><eb u="w" class="c"></eb>' * 2 + '</ex>']),
 ]
 
 
